@@ -305,7 +305,7 @@ let wrspec line =
 (* termchk: an implementation session output line; checks the C06 view after every successful step *)
 let termchk line =
   let steps = Str.split (Str.regexp_string " ; ") line in
-  let t = ref vterm0 in
+  let t = ref tinit in
   let bad = ref "" in
   List.iteri (fun k st ->
     if !bad = "" then
@@ -313,12 +313,12 @@ let termchk line =
     | [r; text; cur; _; pidx; _; sink] ->
       let ops = if sink = "-" then [] else String.split_on_char ',' sink in
       let bytes = List.concat_map (fun o -> if String.length o > 0 && o.[0] = 'W' then unhex (String.sub o 1 (String.length o - 1)) else []) ops in
-      t := feed !t (term_lex bytes);
+      t := tfeed !t bytes;
       if r = "ok" then begin
         let p = prompt_of (nat_of_int (int_of_string pidx)) in
         if not (view_ok !t p (unhex text) (nat_of_int (int_of_string cur))) then
           bad := Printf.sprintf "fail step=%d row=%s col=%d want=%s cursor=%s" k
-              (hex (List.concat (visible !t.row))) (int_of_nat !t.col) (hex (p @ unhex text)) cur
+              (hex (List.concat (visible (fst !t).row))) (int_of_nat (fst !t).col) (hex (p @ unhex text)) cur
       end
     | _ -> bad := "malformed step " ^ string_of_int k) steps;
   if !bad = "" then "ok" else !bad
